@@ -122,6 +122,19 @@ func (h *httpSim) handle(w http.ResponseWriter, r *http.Request) {
 				}
 			}
 			return
+		case "errsuccess":
+			w.Write([]byte(`<response status="error" code="13"><msg>commit was not a success: candidate configuration locked</msg></response>`))
+			return
+		case "commitmsg":
+			if strings.Contains(q, "type=commit") {
+				w.Write([]byte(`<response status="success" code="19"><msg>Commit failed, success not reached</msg></response>`))
+				return
+			}
+		case "jobfail_success":
+			if strings.Contains(q, "<show><jobs>") {
+				w.Write([]byte(`<response status="success"><result><job><result>FAIL</result><details><line>0 of 3 success, status not OK</line></details></job></result></response>`))
+				return
+			}
 		case "jobfail":
 			if strings.Contains(q, "<show><jobs>") {
 				w.Write([]byte(`<response status="success"><result><job><result>FAIL</result></job></result></response>`))
